@@ -21,6 +21,8 @@ def pick_point(rng, grid, lo, hi):
         return float(rng.choice(grid)), 'on'
     if r < 0.45:
         return float(rng.choice(grid)) + rng.choice([-1, 1]) * 2.0 ** -29 * sp, 'band'
+    if r < 0.55 and len(grid) > 1:
+        return float(rng.choice(grid)) + rng.choice([-1, 1]) * 2.0 ** -12 * sp, 'near'
     for _ in range(50):
         x = lo + (hi - lo) * (rng.random() * 1.2 - 0.1)
         if min(abs(x - g) for g in grid) >= 2.0 ** -7 * sp:
@@ -30,7 +32,7 @@ def pick_point(rng, grid, lo, hi):
 
 def derivative_checks(ctx, sig, case, gn, data_sets, xf, kinds, grad, hess, nx):
     """grad[out][k], hess[out][k][l] floats versus exact derivatives of sum_t w_t * tensor interpolant_t"""
-    minsep = min([abs(a - b) for g in gn for a in g for b in g if a != b] or [Fraction(1)])
+    msep = [min([abs(a - b) for a in g for b in g if a != b] or [Fraction(1)]) for g in gn]     # per input: derivatives scale with 1/spacing
     for out, terms in data_sets.items():
         ysum = sum(abs(w) * sum(abs(y) for y in ys) for w, g, ys in terms) + 1
         # inside a band the code evaluates the at-node formulas at the actual point: deviation proportional to the band width
@@ -38,10 +40,13 @@ def derivative_checks(ctx, sig, case, gn, data_sets, xf, kinds, grad, hess, nx):
         for order, arr in ((1, grad), (2, hess)):
             if arr is None:
                 continue
-            scale = ysum / minsep ** order * 16
-            tol = scale * (Fraction(1, 10 ** 4) if band else Fraction(1, 10 ** 8))
+            near = any(k == 'near' for k in kinds)     # 2^-12 of the spread away from a node: ill-conditioned but outside every band
             idxs = [(k,) for k in range(nx)] if order == 1 else [(k, l) for k in range(nx) for l in range(nx)]
             for idx in idxs:
+                scale = ysum * 16
+                for k in idx:
+                    scale = scale / msep[k]
+                tol = scale * (Fraction(1, 10 ** 4) if band else Fraction(1, 10 ** 5) if near else Fraction(1, 10 ** 8))
                 ref = Fraction(0)
                 for w, g, ys in terms:
                     xs = lagr.snap(g, xf) if band else xf
@@ -65,7 +70,11 @@ def interp_level(ctx: Ctx):
         d = rng.randint(1, 3)
         interp = Lagrange()
         names = [f'x{k}' for k in range(d)]
-        doms = {v: (lo := rng.choice([-1.0, 0.0, 2.0]), lo + rng.choice([1.0, 2.0, 0.5])) for v in names}
+        doms = {}
+        for v in names:
+            w = rng.choice([1.0, 2.0, 0.5, 2.0 ** -14, 2.0 ** -10, 2.0 ** 10, 2.0 ** 14])        # inputs of very different scale side by side
+            lo = rng.choice([-1.0, 0.0, 2.0]) * w
+            doms[v] = (lo, lo + w)
         grids = {}
         for v in names:
             n = rng.randint(1, 5); g = []
@@ -178,6 +187,23 @@ def component_level(ctx: Ctx):
                     h = None
                 grad = {o: np.ravel(g[o]).tolist() for o in data_sets}
                 hess = None if h is None else {o: np.asarray(h[o]).reshape(nx, nx).tolist() for o in data_sets}
+                # the same through an executor (tasks completed in a random order): must be the serial result
+                import c15, random as _r
+                sr = _r.Random(rng.randint(0, 10 ** 9))
+                ex = c15.SchedExecutor(lambda m: sr.sample(range(m), m))
+                saved = c15.install_wait(ex)
+                try:
+                    ge = comp.gradient(xin, index_set=mode, executor=ex)
+                    he = comp.hessian(xin, index_set=mode, executor=ex)
+                    for o in data_sets:
+                        if not (np.allclose(np.ravel(ge[o]), np.ravel(g[o]), rtol=1e-9, atol=1e-12) and
+                                (h is None or np.allclose(np.ravel(he[o]), np.ravel(h[o]), rtol=1e-9, atol=1e-12))):
+                            ctx.violate('C11:derivative-through-executor-differs', f'gradient/hessian of {o} computed through an executor differ from the serial ones', case)
+                            break
+                except Exception as e:
+                    ctx.violate('C11:derivative-through-executor-raises', f'{type(e).__name__}: {e}', case)
+                finally:
+                    c15.restore_wait(saved)
                 # band bookkeeping must be per term grid; use the union grid flags (conservative: any band -> loose tolerance)
                 derivative_checks(ctx, 'C11', case, allg, data_sets, xf, kinds, grad, hess, nx)
 
